@@ -25,9 +25,10 @@ BUDGET = {"quick": (16, 40), "thorough": (16, 1500)}
 
 @st.composite
 def _strategy(draw):
-    spec = draw(gc.system(max_res=6))
+    spec = draw(gc.system(max_res=8))
     edge = gc.dilute_box(spec) + 1.0
-    opts = {"box": [edge, edge, edge]}
+    # a small rewind depth so that injected failures lead to rewinds also for short chains
+    opts = {"box": [edge, edge, edge], "nrewind": draw(st.sampled_from([1, 2, 3, 5]))}
     resn = sorted({r["resname"] for mt in spec["moltypes"] for r in mt["residues"]})
     if draw(st.integers(0, 2)) == 0 and len(resn) > 1:
         opts["build_res"] = [draw(st.sampled_from(resn))]
@@ -59,7 +60,13 @@ def _strategy(draw):
     spec["coords"] = draw(c03.supplied_coords(spec, opts["box"], mode=mode, nres=nres,
                                               skip=opts.get("build_res", ())))
     spec["opts"] = opts
-    spec["fail_pattern"] = [draw(st.integers(0, 3)) == 0 for _ in range(draw(st.integers(0, 12)))]
+    if draw(st.integers(0, 2)) == 0:
+        # a burst of failures right at the start together with a small number of allowed attempts:
+        # the molecule runs out of attempts before it succeeds
+        spec["fail_pattern"] = [True] * draw(st.integers(1, 4)) + [draw(st.integers(0, 3)) == 0 for _ in range(draw(st.integers(0, 6)))]
+        opts["maxiter"] = draw(st.sampled_from([0, 1, 2]))
+    else:
+        spec["fail_pattern"] = [draw(st.integers(0, 3)) == 0 for _ in range(draw(st.integers(0, 16)))]
     return spec
 
 
